@@ -4,7 +4,9 @@ import (
 	"sort"
 	"strconv"
 	"fmt"
+	"go/constant"
 	"go/token"
+	"math/big"
 	"go/types"
 	"strings"
 
@@ -321,7 +323,12 @@ func (fc *FnCtx) binop(x *ssa.BinOp) Val {
 	case token.AND:
 		r = fc.bitAndT(t, a.S(), b.S())
 	case token.OR:
-		r = fc.bitOrT(t, a.S(), b.S())
+		if sa, sb := bitSupport(x.X, 0), bitSupport(x.Y, 0); sa != nil && sb != nil && new(big.Int).And(sa, sb).Sign() == 0 {
+			// the operands cannot have a bit in common (constant masks, shifts and operand widths say so): | is +
+			r = fmt.Sprintf("(+ %s %s)", a.S(), b.S())
+		} else {
+			r = fc.bitOrT(t, a.S(), b.S())
+		}
 	case token.XOR:
 		r = fc.bitXorT(t, a.S(), b.S())
 	case token.AND_NOT:
@@ -420,8 +427,9 @@ func (fc *FnCtx) bitNotT(t types.Type, a string) string {
 	if signed {
 		return fmt.Sprintf("(- (- %s) 1)", a)
 	}
-	if n, ok := litOf(a); ok {
-		_ = n
+	if n, ok := litOf(a); ok && n.Sign() >= 0 {
+		full := new(big.Int).Sub(new(big.Int).Lsh(big.NewInt(1), uint(bits)), big.NewInt(1))
+		return bigLit(full.Sub(full, n))
 	}
 	return fmt.Sprintf("(- %s 1 %s)", pow2s(bits), a)
 }
@@ -923,6 +931,9 @@ func (fc *FnCtx) anchorAssertsAt(pos token.Pos) {
 		if !fc.anchorMatches(a.Anchor, pos) {
 			continue
 		}
+		if a.After && !fc.lastRefOnLine(pos) {
+			continue
+		}
 		key := fmt.Sprintf("%d@%d", i, fc.e.fset.Position(pos).Line)
 		if fc.anchorsDone == nil {
 			fc.anchorsDone = map[string]bool{}
@@ -972,6 +983,18 @@ func (fc *FnCtx) anchorAssertsAt(pos token.Pos) {
 			fc.oblige("assert", a.C.Label, f, pos, &a.C)
 		}
 	}
+}
+
+// lastRefOnLine: no later variable reference of the current block lies on the source line of pos (for an
+// assignment that is the reference to its left-hand side, which carries the new value).
+func (fc *FnCtx) lastRefOnLine(pos token.Pos) bool {
+	line := fc.e.fset.Position(pos).Line
+	for _, in := range fc.curBlock.Instrs[fc.curIdx+1:] {
+		if d, ok := in.(*ssa.DebugRef); ok && fc.e.fset.Position(d.Expr.Pos()).Line == line {
+			return false
+		}
+	}
+	return true
 }
 
 // pointEnv resolves names at the current point inside block b: the latest debug reference seen so far.
@@ -1173,4 +1196,86 @@ func (fc *FnCtx) tryEvalStored(e Expr, env *Env) (v Val, ok bool) {
 		}
 	}()
 	return fc.evalExpr(e, env), true
+}
+
+// bitSupport: an over-approximation of the bits an unsigned value can have set, read off its definition
+// (constants, masks with constants, shifts by constants, widening conversions, or); nil when nothing is known.
+func bitSupport(v ssa.Value, depth int) *big.Int {
+	bits, signed, ok := intBits(v.Type())
+	if !ok || depth > 8 {
+		return nil
+	}
+	full := new(big.Int).Sub(new(big.Int).Lsh(big.NewInt(1), uint(bits)), big.NewInt(1))
+	constOf := func(u ssa.Value) *big.Int {
+		c, isC := u.(*ssa.Const)
+		if !isC || c.Value == nil || c.Value.Kind() != constant.Int {
+			return nil
+		}
+		n, okn := new(big.Int).SetString(c.Value.ExactString(), 10)
+		if !okn || n.Sign() < 0 {
+			return nil
+		}
+		return n
+	}
+	if n := constOf(v); n != nil {
+		return n
+	}
+	if signed {
+		return nil
+	}
+	switch x := v.(type) {
+	case *ssa.Convert:
+		if sb, ssgn, sok := intBits(x.X.Type()); sok && !ssgn {
+			in := bitSupport(x.X, depth+1)
+			if in == nil {
+				in = new(big.Int).Sub(new(big.Int).Lsh(big.NewInt(1), uint(sb)), big.NewInt(1))
+			}
+			return in.And(in, full)
+		}
+	case *ssa.BinOp:
+		switch x.Op {
+		case token.AND:
+			sa, sb := bitSupport(x.X, depth+1), bitSupport(x.Y, depth+1)
+			switch {
+			case sa != nil && sb != nil:
+				return new(big.Int).And(sa, sb)
+			case sa != nil:
+				return sa
+			case sb != nil:
+				return sb
+			}
+		case token.AND_NOT:
+			sa := bitSupport(x.X, depth+1)
+			if sa == nil {
+				sa = new(big.Int).Set(full)
+			}
+			if n := constOf(x.Y); n != nil {
+				return new(big.Int).AndNot(sa, n)
+			}
+			return sa
+		case token.OR, token.XOR:
+			sa, sb := bitSupport(x.X, depth+1), bitSupport(x.Y, depth+1)
+			if sa != nil && sb != nil {
+				return new(big.Int).Or(sa, sb)
+			}
+		case token.SHL:
+			if k := constOf(x.Y); k != nil && k.IsInt64() && k.Int64() < 64 {
+				sa := bitSupport(x.X, depth+1)
+				if sa == nil {
+					sa = new(big.Int).Set(full)
+				}
+				r := new(big.Int).Lsh(sa, uint(k.Int64()))
+				return r.And(r, full)
+			}
+		case token.SHR:
+			if k := constOf(x.Y); k != nil && k.IsInt64() && k.Int64() < 64 {
+				sa := bitSupport(x.X, depth+1)
+				if sa == nil {
+					sa = new(big.Int).Set(full)
+				}
+				return new(big.Int).Rsh(sa, uint(k.Int64()))
+			}
+		}
+	}
+	return new(big.Int).Set(full)
 }
